@@ -167,6 +167,14 @@ impl<'a> LspServer<'a> {
             }
             Err(req) => req,
         };
+
+        // Every request must be answered: report methods that are not implemented.
+        let response = lsp_server::Response::new_err(
+            req_id,
+            lsp_server::ErrorCode::MethodNotFound as i32,
+            format!("Method not implemented: {}", _request.method),
+        );
+        self.sender.send(Message::Response(response)).unwrap();
         ""
     }
 
